@@ -450,7 +450,7 @@ func c20Run(c *Ctx) {
 	var seqs [][]string
 	maxLen := 2
 	if !c.Quick() {
-		maxLen = 4
+		maxLen = 3
 	}
 	var gen func(prefix []string)
 	gen = func(prefix []string) {
